@@ -175,7 +175,20 @@ class Ctx:
             return False
         r = self.check_sat([T.lnot(cond)], timeout_ms=min(self.timeout_ms, 3000))
         if r == z3.unknown:
-            # a definite answer is wanted here (the caller builds structure on it): larger budget before giving up
+            # a definite answer is wanted here (the caller builds structure on it).  `unknown` is mostly a
+            # counter-model that z3 cannot complete under the quantified facts: look for it on the ground hypotheses
+            # (unsat there proves validity, sat there settles "not shown valid" at once); only if that is undecided
+            # too - a busy machine - spend a larger budget.
+            s = self._solver(min(self.timeout_ms, 3000))
+            for h in self.hyps():
+                if not z3.is_quantifier(h):
+                    s.add(h)
+            s.add(T.zb(T.lnot(cond)))
+            rg = s.check()
+            if rg == z3.unsat:
+                return True
+            if rg == z3.sat:
+                return False
             r = self.check_sat([T.lnot(cond)], timeout_ms=min(self.timeout_ms, 3000) * int(os.environ.get("VF_RETRY_FACTOR", "6")))
         return r == z3.unsat
 
